@@ -281,8 +281,14 @@ def specShr (x y : F64) : Int := wrapU 32 (specToIntU 32 x / 2 ^ ((specToIntU 32
 
 /-! ## BigInt → Number (`Number(bigint)`, `new Number(bigint)`) -/
 
-/-- runtime.go:871/875/891/896 `intToValue((*big.Int)(b).Int64())`: `Int64()` is the low 64 bits when `b` does not fit -/
-def numberOfBigInt (b : Int) : Num := intToValue (wrapS 64 b)
+/-- runtime.go `bigIntToNumber` (fix 9d4b1ca), used by `Number(bigint)` / `new Number(bigint)`:
+`if b.IsInt64() { return intToValue(b.Int64()) }; f := big.Float(b).Float64(); return floatToValue(f)` — `Float64()` is
+the nearest double, ties to even, ±Inf beyond the range (= `F64.ofInt`) -/
+def numberOfBigInt (b : Int) : Num :=
+  if minInt64 ≤ b ∧ b ≤ maxInt64 then intToValue b else floatToValue (F64.ofInt b)
+
+/-- the conversion BEFORE 9d4b1ca: `intToValue(b.Int64())`, `Int64()` being the low 64 bits (regression witness only) -/
+def numberOfBigIntPrefix (b : Int) : Num := intToValue (wrapS 64 b)
 
 /-- ECMA-262 Number(bigint) = 𝔽(ℝ(b)): the nearest double, as the canonical value -/
 def specNumberOfBigInt (b : Int) : Num := floatToValue (F64.ofInt b)
